@@ -7,8 +7,10 @@ mkdir -p work evidence replays
 cd harness
 cargo build --release --bins 2>&1 | tail -2
 cargo build --release --bin c14 --features faster-hex 2>&1 | tail -1
-cargo build --profile nodbg --bin c02 --bin c07 --bin c09 --bin c10 2>&1 | tail -1
+cargo build --profile nodbg --bin c02 --bin c03 --bin c04 --bin c05 --bin c06 --bin c07 --bin c09 --bin c10 2>&1 | tail -1
 cargo build --profile stk --bin c15 2>&1 | tail -1
+cargo build --profile nodbg --bin c14 2>&1 | tail -1
+cargo build --profile nodbg --bin c14 --features faster-hex 2>&1 | tail -1
 cd rlibdep
 cargo build --target-dir ../target/rlibdep 2>&1 | tail -1
 # warm the Miri build used by the quick tier of C09 (interpreter sysroot + harness under Miri)
